@@ -7,7 +7,8 @@ n = int(sys.argv[1]) if len(sys.argv) > 1 else 300
 seed = int(sys.argv[2]) if len(sys.argv) > 2 else 1
 profiles = sys.argv[3].split(',') if len(sys.argv) > 3 else ["default", "alloc", "errors", "reserve", "cache", "batch"]
 u = [int(x) for x in subprocess.run(['/verif/.build/target/debug/hv', 'universe'], capture_output=True, text=True).stdout.split()]
-cases = list(gens.gen_world(profiles, n, n)("quick", seed, u))
+qp = [int(x) for x in sys.argv[4].split(',')] if len(sys.argv) > 4 else None
+cases = list(gens.gen_world(profiles, n, n, qp, 0.6 if qp else 0.0)("quick", seed, u))
 open('/verif/.build/t_world.txt', 'w').write("\n".join(" ".join(map(str, c)) for c in cases) + "\n")
 a = subprocess.run(['/verif/.build/target/debug/hv', 'run', '/verif/.build/t_world.txt'], capture_output=True, text=True, timeout=300).stdout.splitlines()
 b = subprocess.run(['/verif/.build/runner/runner'], stdin=open('/verif/.build/t_world.txt'), capture_output=True, text=True, timeout=300).stdout.splitlines()
